@@ -396,6 +396,9 @@ func sfoMutants(r *rand.Rand, n int) map[string][]byte {
 	out["titleid-4chars"] = tid("ABCD")
 	out["titleid-40chars"] = tid(strings.Repeat("X", 40))
 	out["titleid-300chars"] = tid(strings.Repeat("Y", 300))
+	for l := 0; l <= 48; l++ {
+		out[fmt.Sprintf("titleid-len%02d", l)] = tid(strings.Repeat("T", l))
+	}
 	out["titleid-nonascii"] = tid("ÄÖÜß€1234")
 	out["titleid-missing"] = makeSFO(map[string]string{"TITLE": "x"}, []string{"TITLE"})
 	out["no-entries"] = makeSFO(map[string]string{}, nil)
